@@ -10,6 +10,9 @@ from .solve import discharge
 
 
 def load_contracts(prop):
+    import sys
+    if "contracts." + prop in sys.modules and ALL_CONTRACTS.get(prop):
+        pass
     importlib.import_module("contracts." + prop)
     classes = ALL_CONTRACTS.get(prop, [])
     table = {}
@@ -19,6 +22,8 @@ def load_contracts(prop):
 
 
 def run_property(prop, repo_root="/repo", timeout=10, verbose=False, scope=None):
+    import os
+    os.environ["PYVC_REPO"] = repo_root
     repo = Repo(repo_root)
     table = load_contracts(prop)
     reports = []
